@@ -67,6 +67,37 @@ def check_vector(ctx, item, want, tag="vector"):
                            what=f"{tag}: decode of {desc(item)} consumed {pos}/{len(want)} bytes, value equal={same}, "
                                 f"re-encode equal={again == want}"))
         return
+    # decoding is a function of the bytes, not of what the object held before: an object that holds this value decodes
+    # the zero-length item of its type (a list: the empty list and its own first child alone)
+    from .. import e5 as ref
+    alts = []
+    if f != "L":
+        if item["v"]:
+            alts.append(ref.header(f, 0))
+    elif isinstance(fmt, list) and len([x for x in fmt if not isinstance(x, str)]) == 1 and item["v"]:
+        alts.append(ref.header("L", 0))
+        if len(item["v"]) > 1:
+            alts.append(None)
+    for alt in alts:
+        try:
+            if alt is None:
+                one, _ = e5bind.vbuild({"f": "L", "v": item["v"][:1]})
+                alt = bytes(one.encode())
+            used, _ = e5bind.vbuild(item)
+            pos = used.decode(alt + GARBAGE, 0)
+            again = bytes(used.encode())
+            fresh2 = e5bind.vfresh(fmt)
+            fresh2.decode(alt, 0)
+            same = used.get() == fresh2.get()
+        except Exception as exc:  # noqa: BLE001
+            ctx.violation(dict(base, check="decode-reused", error=type(exc).__name__, bytes=alt[:40].hex() if alt else None,
+                               what=f"{tag}: an object holding {desc(item)} raised {exc!r} when decoding {alt[:16].hex() if alt else '?'}"))
+            break
+        if pos != len(alt) or again != alt or not same:
+            ctx.violation(dict(base, check="decode-reused", bytes=alt[:40].hex(), reencoded=again[:40].hex(), zero_length=len(alt) == 2,
+                               what=f"{tag}: an object holding {desc(item)} decodes {alt[:16].hex()} to a value that re-encodes as "
+                                    f"{again[:16].hex()} (equal to a fresh object's value: {same})"))
+            break
     # untyped decode (Dynamic's type list has no JIS-8)
     if '"J"' in json.dumps(item):
         return
